@@ -29,32 +29,51 @@ Module St.
 
 (* sl_rw: the class has read_<struct> or write_<struct> (hasStructRW); sl_sr / sl_sw: which of them the user wrote.
    Without combined methods: sl_mr / sl_mw say which members have a user read_ / write_ method.
-   The fake hardware holds one number per member; user methods read it / store into it and return what they stored. *)
+   The fake hardware holds one number per member; user methods read it / store into it and return what they stored.
+   Fault script of the fake driver: frd i / fwr i = the user read_ / write_ method of member i raises (HardwareError on
+   read, RangeError on write); in the combined layout entry 0 is the fault flag of read_<struct> / write_<struct>. *)
 Record layout := { sl_n : nat; sl_rw : bool; sl_sr : bool; sl_sw : bool; sl_mr : list bool; sl_mw : list bool;
                    sl_lo : Z; sl_hi : Z }.
 
-Record state := { hw : list Z; cst : list Z; cmem : list Z; evs : list ev }.   (* evs newest first *)
+(* est / emem: the struct / member i carries the read error of a fault (readerror is a HardwareError) *)
+Record state := { hw : list Z; cst : list Z; cmem : list Z; frd : list bool; fwr : list bool;
+                  est : bool; emem : list bool; evs : list ev }.   (* evs newest first *)
 
-Definition set_hw s v := {| hw := v; cst := cst s; cmem := cmem s; evs := evs s |}.
-Definition set_cst s v := {| hw := hw s; cst := v; cmem := cmem s; evs := evs s |}.
-Definition set_cmem s v := {| hw := hw s; cst := cst s; cmem := v; evs := evs s |}.
-Definition emit s (p : nat) (v : list Z) := {| hw := hw s; cst := cst s; cmem := cmem s; evs := (p, v) :: evs s |}.
+Definition set_hw s v := {| hw := v; cst := cst s; cmem := cmem s; frd := frd s; fwr := fwr s; est := est s; emem := emem s; evs := evs s |}.
+Definition set_cst s v := {| hw := hw s; cst := v; cmem := cmem s; frd := frd s; fwr := fwr s; est := false; emem := emem s; evs := evs s |}.
+Definition set_cmem s (i : nat) v := {| hw := hw s; cst := cst s; cmem := v; frd := frd s; fwr := fwr s; est := est s;
+                                        emem := set_nth i false (emem s); evs := evs s |}.
+Definition set_faults s r w := {| hw := hw s; cst := cst s; cmem := cmem s; frd := r; fwr := w; est := est s; emem := emem s; evs := evs s |}.
+Definition emit s (p : nat) (v : list Z) :=
+  {| hw := hw s; cst := cst s; cmem := cmem s; frd := frd s; fwr := fwr s; est := est s; emem := emem s; evs := (p, v) :: evs s |}.
 
-(* parameter ids: 0 the struct, S i member i *)
+(* parameter ids: 0 the struct, S i member i; an error update of parameter p is the event (100 + p, []) *)
 
-(* announceUpdate(member i, v) when no callback propagates to the struct (combined layout, or insideRW > 0) *)
+(* announceUpdate(member i, v) when no callback propagates to the struct (combined layout, or insideRW > 0);
+   a value update clears the read error *)
 Definition ann_mem_quiet (i : nat) (v : Z) (s : state) : state :=
-  emit (set_cmem s (set_nth i v (cmem s))) (S i) [v].
+  emit (set_cmem s i (set_nth i v (cmem s))) (S i) [v].
 
 (* announceUpdate(member i, v) in the layout without combined methods, insideRW = 0: the callback registered by
    StructParam.finish copies the struct value, replaces the member and assigns the struct (which has no callbacks);
    callbacks run before the update of the member itself is sent *)
 Definition ann_mem_cb (i : nat) (v : Z) (s : state) : state :=
-  let s1 := set_cmem s (set_nth i v (cmem s)) in
+  let s1 := set_cmem s i (set_nth i v (cmem s)) in
   let prev := set_nth i v (cst s1) in
   emit (emit (set_cst s1 prev) 0 prev) (S i) [v].
 
 Definition ann_mem (quiet : bool) := if quiet then ann_mem_quiet else ann_mem_cb.
+
+(* announceUpdate(p, err=e): nothing at all for a repeated error; otherwise readerror is stored, the callbacks are
+   called with (None, err) - both StructParam callbacks raise inside (swallowed) or are skipped - and the error update is sent *)
+Definition ann_err_mem (i : nat) (s : state) : state :=
+  if nth i (emem s) false then s
+  else emit {| hw := hw s; cst := cst s; cmem := cmem s; frd := frd s; fwr := fwr s; est := est s;
+               emem := set_nth i true (emem s); evs := evs s |} (100 + S i) [].
+Definition ann_err_struct (s : state) : state :=
+  if est s then s
+  else emit {| hw := hw s; cst := cst s; cmem := cmem s; frd := frd s; fwr := fwr s; est := true;
+               emem := emem s; evs := evs s |} 100 [].
 
 (* announceUpdate(struct, v) without callbacks (layout without combined methods) *)
 Definition ann_struct_quiet (v : list Z) (s : state) : state := emit (set_cst s v) 0 v.
@@ -69,87 +88,147 @@ Fixpoint assign_members (idx : list nat) (v : list Z) (s : state) : state :=
 Definition ann_struct_cb (n : nat) (v : list Z) (s : state) : state :=
   emit (assign_members (seq 0 n) v (set_cst s v)) 0 v.
 
-(* --- layout without combined methods --- *)
-(* wrapped read_<member>: user method reads the hardware and the wrapper announces; without user method the wrapper
-   returns the cached value *)
-Definition nr_read_mem (L : layout) (quiet : bool) (i : nat) (s : state) : state * Z :=
+(* --- layout without combined methods; None = the method raised --- *)
+(* wrapped read_<member>: user method reads the hardware and the wrapper announces; a raising user method makes the
+   wrapper announce the error; without user method the wrapper returns the cached value *)
+Definition nr_read_mem (L : layout) (quiet : bool) (i : nat) (s : state) : state * option Z :=
   if nth i (sl_mr L) false
-  then let v := nth i (hw s) 0%Z in (ann_mem quiet i v s, v)
-  else (s, nth i (cmem s) 0%Z).
+  then if nth i (frd s) false then (ann_err_mem i s, None)
+       else let v := nth i (hw s) 0%Z in (ann_mem quiet i v s, Some v)
+  else (s, Some (nth i (cmem s) 0%Z)).
 
-(* wrapped write_<member> (value already validated) *)
-Definition nr_write_mem (L : layout) (quiet : bool) (i : nat) (v : Z) (s : state) : state * Z :=
-  let s1 := if nth i (sl_mw L) false then set_hw s (set_nth i v (hw s)) else s in
-  (ann_mem quiet i v s1, v).
+(* wrapped write_<member> (value already validated); a raising user method changes nothing *)
+Definition nr_write_mem (L : layout) (quiet : bool) (i : nat) (v : Z) (s : state) : state * option Z :=
+  if nth i (sl_mw L) false && nth i (fwr s) false then (s, None)
+  else
+    let s1 := if nth i (sl_mw L) false then set_hw s (set_nth i v (hw s)) else s in
+    (ann_mem quiet i v s1, Some v).
 
-(* generated struct_read_func / struct_write_func: insideRW += 1, one call per member in order, dict of the results *)
-Fixpoint nr_read_all (L : layout) (idx : list nat) (s : state) : state * list Z :=
+(* generated struct_read_func / struct_write_func: insideRW += 1, one call per member in order, dict of the results;
+   the first raising member aborts the loop (try/finally restores insideRW, so the counter is not part of the state) *)
+Fixpoint nr_read_all (L : layout) (idx : list nat) (s : state) : state * option (list Z) :=
   match idx with
-  | [] => (s, [])
-  | i :: r => let '(s1, v) := nr_read_mem L true i s in
-              let '(s2, vs) := nr_read_all L r s1 in (s2, v :: vs)
+  | [] => (s, Some [])
+  | i :: r => match nr_read_mem L true i s with
+              | (s1, None) => (s1, None)
+              | (s1, Some v) => match nr_read_all L r s1 with
+                                | (s2, None) => (s2, None)
+                                | (s2, Some vs) => (s2, Some (v :: vs))
+                                end
+              end
   end.
 
-Fixpoint nr_write_all (L : layout) (idx : list nat) (val : list Z) (s : state) : state * list Z :=
+Fixpoint nr_write_all (L : layout) (idx : list nat) (val : list Z) (s : state) : state * option (list Z) :=
   match idx with
-  | [] => (s, [])
-  | i :: r => let '(s1, v) := nr_write_mem L true i (nth i val 0%Z) s in
-              let '(s2, vs) := nr_write_all L r val s1 in (s2, v :: vs)
+  | [] => (s, Some [])
+  | i :: r => match nr_write_mem L true i (nth i val 0%Z) s with
+              | (s1, None) => (s1, None)
+              | (s1, Some v) => match nr_write_all L r val s1 with
+                                | (s2, None) => (s2, None)
+                                | (s2, Some vs) => (s2, Some (v :: vs))
+                                end
+              end
   end.
 
-Definition nr_read_struct (L : layout) (s : state) : state * list Z :=
-  let '(s1, vs) := nr_read_all L (seq 0 (sl_n L)) s in (ann_struct_quiet vs s1, vs).
+(* the wrapper of read_<struct> announces the error of an aborted read on the struct as well *)
+Definition nr_read_struct (L : layout) (s : state) : state * option (list Z) :=
+  match nr_read_all L (seq 0 (sl_n L)) s with
+  | (s1, Some vs) => (ann_struct_quiet vs s1, Some vs)
+  | (s1, None) => (ann_err_struct s1, None)
+  end.
 
-Definition nr_write_struct (L : layout) (val : list Z) (s : state) : state * list Z :=
-  let '(s1, vs) := nr_write_all L (seq 0 (sl_n L)) val s in (ann_struct_quiet vs s1, vs).
+Definition nr_write_struct (L : layout) (val : list Z) (s : state) : state * option (list Z) :=
+  match nr_write_all L (seq 0 (sl_n L)) val s with
+  | (s1, Some vs) => (ann_struct_quiet vs s1, Some vs)
+  | (s1, None) => (s1, None)
+  end.
 
 (* --- combined layout --- *)
-Definition rw_read_struct (L : layout) (s : state) : state * list Z :=
-  if sl_sr L then let v := hw s in (ann_struct_cb (sl_n L) v s, v) else (s, cst s).
+Definition rw_read_struct (L : layout) (s : state) : state * option (list Z) :=
+  if sl_sr L then
+    if nth 0 (frd s) false then (ann_err_struct s, None)
+    else let v := hw s in (ann_struct_cb (sl_n L) v s, Some v)
+  else (s, Some (cst s)).
 
-Definition rw_write_struct (L : layout) (val : list Z) (s : state) : state * list Z :=
-  let s1 := if sl_sw L then set_hw s val else s in
-  (ann_struct_cb (sl_n L) val s1, val).
+Definition rw_write_struct (L : layout) (val : list Z) (s : state) : state * option (list Z) :=
+  if sl_sw L && nth 0 (fwr s) false then (s, None)
+  else
+    let s1 := if sl_sw L then set_hw s val else s in
+    (ann_struct_cb (sl_n L) val s1, Some val).
 
-(* generated rfunc: read_<struct>()[member], then the wrapper announces the member *)
-Definition rw_read_mem (L : layout) (i : nat) (s : state) : state * Z :=
-  let '(s1, d) := rw_read_struct L s in
-  let v := nth i d 0%Z in (ann_mem_quiet i v s1, v).
+(* generated rfunc: read_<struct>()[member], then the wrapper announces the member (value or error) *)
+Definition rw_read_mem (L : layout) (i : nat) (s : state) : state * option Z :=
+  match rw_read_struct L s with
+  | (s1, Some d) => let v := nth i d 0%Z in (ann_mem_quiet i v s1, Some v)
+  | (s1, None) => (ann_err_mem i s1, None)
+  end.
 
-(* generated wfunc: copy of the cached struct with the member replaced -> write_<struct>; returns read_<member>() *)
-Definition rw_write_mem (L : layout) (i : nat) (v : Z) (s : state) : state * Z :=
+(* generated wfunc: copy of the cached struct with the member replaced -> write_<struct>; returns read_<member>();
+   result: the value, or the error code *)
+Definition rw_write_mem (L : layout) (i : nat) (v : Z) (s : state) : state * res :=
   let d := set_nth i v (cst s) in
-  let '(s1, _) := rw_write_struct L d s in
-  let '(s2, r) := rw_read_mem L i s1 in
-  (ann_mem_quiet i r s2, r).
+  match rw_write_struct L d s with
+  | (s1, None) => (s1, RErr 1)
+  | (s1, Some _) =>
+      match rw_read_mem L i s1 with
+      | (s2, None) => (s2, RErr 3)
+      | (s2, Some r) => (ann_mem_quiet i r s2, ROk [r])
+      end
+  end.
 
 Inductive op :=
 | ReadS | ReadM (i : nat)                   (* read through the wrapped read_ method (client or driver) *)
 | WriteS (v : list Z) | WriteM (i : nat) (v : Z)
 | SetS (v : list Z) | SetM (i : nat) (v : Z)   (* driver assignment  self.<param> = v *)
-| Hw (v : list Z).                          (* the hardware changes by itself *)
+| Hw (v : list Z)                           (* the hardware changes by itself *)
+| Fault (rd wr : list bool).                (* the fault script of the fake driver changes *)
 
 Definition in_range (L : layout) (v : Z) : bool := (sl_lo L <=? v)%Z && (v <=? sl_hi L)%Z.
 
+Definition res_list (r : option (list Z)) (code : nat) : res := match r with Some v => ROk v | None => RErr code end.
+Definition res_one (r : option Z) (code : nat) : res := match r with Some v => ROk [v] | None => RErr code end.
+
+(* code 3: HardwareError of a read fault; code 1: RangeError (datatype or write fault) *)
 Definition step (L : layout) (s : state) (o : op) : state * res :=
   match o with
-  | ReadS => let '(s1, v) := (if sl_rw L then rw_read_struct L s else nr_read_struct L s) in (s1, ROk v)
-  | ReadM i => let '(s1, v) := (if sl_rw L then rw_read_mem L i s else nr_read_mem L false i s) in (s1, ROk [v])
+  | ReadS => let '(s1, v) := (if sl_rw L then rw_read_struct L s else nr_read_struct L s) in (s1, res_list v 3)
+  | ReadM i => let '(s1, v) := (if sl_rw L then rw_read_mem L i s else nr_read_mem L false i s) in (s1, res_one v 3)
   | WriteS v =>
       if forallb (in_range L) v then
-        let '(s1, r) := (if sl_rw L then rw_write_struct L v s else nr_write_struct L v s) in (s1, ROk r)
+        let '(s1, r) := (if sl_rw L then rw_write_struct L v s else nr_write_struct L v s) in (s1, res_list r 1)
       else (s, RErr 1)
   | WriteM i v =>
       if in_range L v then
-        let '(s1, r) := (if sl_rw L then rw_write_mem L i v s else nr_write_mem L false i v s) in (s1, ROk [r])
+        if sl_rw L then rw_write_mem L i v s
+        else let '(s1, r) := nr_write_mem L false i v s in (s1, res_one r 1)
       else (s, RErr 1)
   | SetS v => ((if sl_rw L then ann_struct_cb (sl_n L) v s else ann_struct_quiet v s), ROk [])
   | SetM i v => ((if sl_rw L then ann_mem_quiet i v s else ann_mem_cb i v s), ROk [])
   | Hw v => (set_hw s v, ROk [])
+  | Fault r w => (set_faults s r w, ROk [])
+  end.
+
+Fixpoint zl_eqb (a b : list Z) : bool :=
+  match a, b with
+  | [], [] => true
+  | x :: a', y :: b' => Z.eqb x y && zl_eqb a' b'
+  | _, _ => false
+  end.
+
+(* the generated struct read / write loop was aborted by a raising member AFTER the cache of an earlier member of the
+   same loop had changed (the finding class of partially executed struct access) *)
+Definition partial_abort (L : layout) (s : state) (o : op) : bool :=
+  match o with
+  | ReadS => negb (sl_rw L) &&
+             match nr_read_all L (seq 0 (sl_n L)) s with (s1, None) => negb (zl_eqb (cmem s1) (cmem s)) | _ => false end
+  | WriteS v => negb (sl_rw L) && forallb (in_range L) v &&
+             match nr_write_all L (seq 0 (sl_n L)) v s with (s1, None) => negb (zl_eqb (cmem s1) (cmem s)) | _ => false end
+  | _ => false
   end.
 
 Definition init (L : layout) : state :=
-  let z := repeat 0%Z (sl_n L) in {| hw := z; cst := z; cmem := z; evs := [] |}.
+  let z := repeat 0%Z (sl_n L) in
+  {| hw := z; cst := z; cmem := z; frd := []; fwr := []; est := false; emem := repeat false (sl_n L); evs := [] |}.
 
 Definition run (L : layout) (ops : list op) : state := fold_left (fun s o => fst (step L s o)) ops (init L).
 
@@ -313,50 +392,103 @@ End Li.
 (* ------------------------------------------------------------------------------------------------ *)
 Module Co.
 
-(* n controllers attached to one output; controller j is the one registered j-th (controlled_by member S j) *)
-Record state := { by_ : nat; act : list bool; otarget : Z; ctarget : list Z; evs : list ev }.
+(* controllers attached to one output; controller j is the one registered j-th (controlled_by member S j).
+   kinds j: what cj.set_control_active(False) does besides clearing the flag:
+     0 nothing; 1 it first writes the safe value 0 to the output's target (the output then calls self_controlled in the
+     middle of whatever is going on, as frappy_psi.picontrol does); 2 it raises (HardwareError) while cfail j is set *)
+Record state := { by_ : nat; act : list bool; otarget : Z; ctarget : list Z; cfail : list bool; evs : list ev }.
 (* parameter ids: 0 out.controlled_by, 1 out.target, 10+2j cj.control_active, 11+2j cj.target *)
 
-(* the registered deactivate_control callbacks, called for every input except [skip] in registration order;
-   each one touches its own control_active only, and only when it is set *)
-Fixpoint deact (skip : option nat) (j : nat) (a : list bool) : list bool * list ev :=
-  match a with
-  | [] => ([], [])
-  | b :: r =>
-      let '(r', e) := deact skip (S j) r in
-      if b && negb (match skip with Some i => Nat.eqb i j | None => false end)
-      then (false :: r', (10 + 2 * j, [0%Z]) :: e) else (b :: r', e)
+Definition off (j : nat) (s : state) : state :=       (* self.control_active = False *)
+  {| by_ := by_ s; act := set_nth j false (act s); otarget := otarget s; ctarget := ctarget s; cfail := cfail s;
+     evs := (10 + 2 * j, [0%Z]) :: evs s |}.
+
+(* the output's wrapped write_target when controlled_by is already self: self_controlled does nothing *)
+Definition out_write_idle (v : Z) (s : state) : state :=
+  {| by_ := by_ s; act := act s; otarget := v; ctarget := ctarget s; cfail := cfail s; evs := (1, [v]) :: evs s |}.
+
+Definition name_self (s : state) : state :=           (* self.controlled_by = 0 *)
+  {| by_ := 0; act := act s; otarget := otarget s; ctarget := ctarget s; cfail := cfail s; evs := (0, [0%Z]) :: evs s |}.
+
+(* the loop over the registered deactivate_control callbacks, in registration order, except [skip];
+   f j = cj.set_control_active(False), called only when cj.control_active is set; false = it raised (the loop is left) *)
+Fixpoint dloop (f : nat -> state -> state * bool) (skip : option nat) (idx : list nat) (s : state) : state * bool :=
+  match idx with
+  | [] => (s, true)
+  | j :: r =>
+      if (match skip with Some i => Nat.eqb i j | None => false end) || negb (nth j (act s) false)
+      then dloop f skip r s
+      else match f j s with
+           | (s1, true) => dloop f skip r s1
+           | (s1, false) => (s1, false)
+           end
+  end.
+
+(* set_control_active(False) while the output names self (inside self_controlled): a nested write of the output's
+   target finds controlled_by = 0 *)
+Definition set_inactive0 (kinds : list nat) (j : nat) (s : state) : state * bool :=
+  match nth j kinds 0 with
+  | 1 => (off j (out_write_idle 0%Z s), true)
+  | 2 => if nth j (cfail s) false then (s, false) else (off j s, true)
+  | _ => (off j s, true)
+  end.
+
+(* the output's wrapped write_target: user method calls self_controlled, then the wrapper announces the target *)
+Definition out_write (kinds : list nat) (v : Z) (s : state) : state * bool :=
+  match by_ s with
+  | O => (out_write_idle v s, true)
+  | S _ =>
+      match dloop (set_inactive0 kinds) None (seq 0 (length kinds)) (name_self s) with
+      | (s1, true) => (out_write_idle v s1, true)
+      | (s1, false) => (s1, false)
+      end
+  end.
+
+(* set_control_active(False) in general *)
+Definition set_inactive1 (kinds : list nat) (j : nat) (s : state) : state * bool :=
+  match nth j kinds 0 with
+  | 1 => match out_write kinds 0%Z s with
+         | (s1, true) => (off j s1, true)
+         | (s1, false) => (s1, false)
+         end
+  | _ => set_inactive0 kinds j s
   end.
 
 Inductive op :=
 | WriteT (i : nat) (v : Z)      (* write target of controller i: user write_target calls activate_control *)
 | WriteO (v : Z)                (* write target of the output: user write_target calls self_controlled *)
-| UpdT (i : nat) (v : Z).       (* controller i calls out.update_target(name, v) *)
+| UpdT (i : nat) (v : Z)        (* controller i calls out.update_target(name, v) *)
+| CFault (f : list bool).       (* the fault script changes *)
 
-Definition step (s : state) (o : op) : state * res :=
+Definition step (kinds : list nat) (s : state) (o : op) : state * res :=
   match o with
   | WriteT i v =>
-      let '(a1, e1) := deact (Some i) 0 (act s) in
-      (* out.controlled_by = name; set_control_active(True); the wrapper announces target *)
-      ({| by_ := S i; act := set_nth i true a1; otarget := otarget s; ctarget := set_nth i v (ctarget s);
-          evs := (11 + 2 * i, [v]) :: (10 + 2 * i, [1%Z]) :: (0, [Z.of_nat (S i)]) :: rev e1 ++ evs s |}, ROk [v])
+      (* activate_control: every other input is deactivated first, then out.controlled_by = name, then
+         set_control_active(True); finally the wrapper announces target *)
+      match dloop (set_inactive1 kinds) (Some i) (seq 0 (length kinds)) s with
+      | (s1, true) =>
+          ({| by_ := S i; act := set_nth i true (act s1); otarget := otarget s1; ctarget := set_nth i v (ctarget s1);
+              cfail := cfail s1;
+              evs := (11 + 2 * i, [v]) :: (10 + 2 * i, [1%Z]) :: (0, [Z.of_nat (S i)]) :: evs s1 |}, ROk [v])
+      | (s1, false) => (s1, RErr 3)
+      end
   | WriteO v =>
-      match by_ s with
-      | O => ({| by_ := 0; act := act s; otarget := v; ctarget := ctarget s; evs := (1, [v]) :: evs s |}, ROk [v])
-      | S _ =>
-          let '(a1, e1) := deact None 0 (act s) in
-          ({| by_ := 0; act := a1; otarget := v; ctarget := ctarget s;
-              evs := (1, [v]) :: rev e1 ++ (0, [0%Z]) :: evs s |}, ROk [v])
+      match out_write kinds v s with
+      | (s1, true) => (s1, ROk [v])
+      | (s1, false) => (s1, RErr 3)
       end
   | UpdT i v =>
       (* inputCallbacks.get(self.controlled_by) never finds an entry (keys are names, the key offered is the enum
          member, hashed by its number), so nobody is switched off; controlled_by is not changed *)
-      ({| by_ := by_ s; act := act s; otarget := v; ctarget := ctarget s; evs := (1, [v]) :: evs s |}, ROk [])
+      (out_write_idle v s, ROk [])
+  | CFault f =>
+      ({| by_ := by_ s; act := act s; otarget := otarget s; ctarget := ctarget s; cfail := f; evs := evs s |}, ROk [])
   end.
 
-Definition init (n : nat) : state :=
-  {| by_ := 0; act := repeat false n; otarget := 0%Z; ctarget := repeat 0%Z n; evs := [] |}.
+Definition init (kinds : list nat) : state :=
+  let n := length kinds in
+  {| by_ := 0; act := repeat false n; otarget := 0%Z; ctarget := repeat 0%Z n; cfail := []; evs := [] |}.
 
-Definition run (n : nat) (ops : list op) : state := fold_left (fun s o => fst (step s o)) ops (init n).
+Definition run (kinds : list nat) (ops : list op) : state := fold_left (fun s o => fst (step kinds s o)) ops (init kinds).
 
 End Co.
